@@ -36,7 +36,9 @@ class TypeNormalizer:
         if isinstance(t, typing._AnnotatedAlias):
             t = t.__origin__
 
-        if t is type:
+        if t is None:
+            t = type(None)
+        elif t is type:
             t = type[object]
         elif t is typing.Any:
             t = object
